@@ -213,7 +213,7 @@ def run_spec(args: dict, sandbox: str) -> dict:
             violations.append({"kind": "harness-base-exception", "locus": res["exception"], "detail": res["exception_msg"]})
     elif res["exception"] is not None:
         locus = f"{res['exception']}@{genrun.tb_locus(res['tb'])}"
-        violations.append({"kind": "crash", "locus": locus, "detail": f"unhandled {res['exception']}: {res['exception_msg']}\n{res['tb'][-1500:]}"})
+        violations.append({"kind": "crash", "locus": locus, "detail": f"unhandled {res['exception']}: {res['exception_msg']}\n{res['tb'][-1200:]}"})
         outcome = "crash"
     else:
         if diags is None:
